@@ -162,4 +162,4 @@ def run(facts, rep, tier):
             rep.violation("C11-R3", "%s|reaches-update" % hf.def_, "does not reach Database::update_document: the edit is not applied", hf.loc)
 
     # R2: panic inventory below the notification path
-    panics.inventory(facts, rep, "C11-R2", [on_notif.def_], floor=40)
+    panics.inventory(facts, rep, "C11-R2", [on_notif.def_], floor=40, prop="C11")
